@@ -97,6 +97,50 @@ def proof_status(prop, built):
     return {"obligations": len(names), "discharged": discharged, "theorems": names, "problems": problems}
 
 
+def coqchk_status(prop):
+    """thorough tier: re-check Properties/<prop>.vo and everything it depends on with the independent
+    checker and read the axiom summary; the result is cached on the hash of the compiled files it
+    covers (the checker takes about a minute per property)"""
+    import subprocess
+    vo = os.path.join(build.COQ, "Properties", prop + ".vo")
+    if not os.path.exists(vo):
+        return [f"coqchk: Properties/{prop}.vo missing"]
+    h = hashlib.sha1()
+    for f in sorted(_deps_of(prop)):
+        fv = os.path.join(build.COQ, f + "o")
+        if os.path.exists(fv):
+            h.update(f.encode()); h.update(open(fv, "rb").read())
+    key = h.hexdigest()
+    cdir = os.path.join(ROOT, ".cache")
+    os.makedirs(cdir, exist_ok=True)
+    cfile = os.path.join(cdir, f"coqchk_{prop}.json")
+    if os.path.exists(cfile):
+        try:
+            c = json.load(open(cfile))
+            if c.get("key") == key:
+                return c["problems"]
+        except Exception:
+            pass
+    try:
+        r = subprocess.run(["coqchk", "-o", "-silent", "-Q", ".", "RX", f"RX.Properties.{prop}"], cwd=build.COQ,
+                           capture_output=True, text=True, timeout=1800)
+        out = r.stdout + r.stderr
+    except subprocess.TimeoutExpired:
+        return ["coqchk: timed out after 1800 s"]
+    problems = []
+    if r.returncode != 0:
+        problems.append("coqchk failed: " + out[-600:])
+    else:
+        for label in ("Axioms", "Constants/Inductives relying on type-in-type", "Constants/Inductives relying on unsafe (co)fixpoints",
+                      "Inductives whose positivity is assumed"):
+            m = re.search(r"\* " + re.escape(label) + r":\s*(.*?)\n\s*\n", out, re.S)
+            val = m.group(1).strip() if m else "?"
+            if val != "<none>":
+                problems.append(f"coqchk: {label}: {val[:300]}")
+    json.dump({"key": key, "problems": problems}, open(cfile, "w"))
+    return problems
+
+
 def _deps_of(prop):
     """transitive .v dependencies of Properties/<prop>.v inside the project, via coqdep output"""
     dfile = os.path.join(build.COQ, ".Makefile.d")
@@ -168,7 +212,8 @@ def finish(prop, tier, seed, t0, pstat, sl, known_hits):
         "property_id": prop, "tier": tier, "seed": seed, "level": "proof",
         "coverage": {
             "obligations": max(1, pstat["obligations"]), "discharged": pstat["discharged"],
-            "checker_cmd": f"cd /verif/coq && make Properties/{prop}.vo  (coqc 8.16.1, full .vo build; Print Assumptions per theorem)",
+            "checker_cmd": f"cd /verif/coq && make Properties/{prop}.vo  (coqc 8.16.1, full .vo build; Print Assumptions per theorem)"
+                           + (f"; coqchk -o -silent -Q . RX RX.Properties.{prop}: {pstat['coqchk']}" if pstat.get("coqchk") else ""),
             "trusted_base": TRUSTED_BASE,
             "theorems": pstat["theorems"], "proof_problems": pstat["problems"],
             "evaluations": sl["evaluations"], "distinct_nontrivial": sl["distinct_nontrivial"],
